@@ -170,6 +170,8 @@ class ValScoreVC(V.VC):
         super().havoc(st, o, names)
         for g in ("t", "cov", "wsum"):
             st.ghost[g] = z3.FreshInt(g)
+        if self.acc_name() in st.env:
+            st.env[self.acc_name()] = V.Opaque("acc")      # the accumulated score is not an integer of the arithmetic subset
 
     def counter(self):
         import ast
@@ -177,13 +179,35 @@ class ValScoreVC(V.VC):
         return w[0].test.left.id if w and isinstance(w[0].test, ast.Compare) and isinstance(w[0].test.left, ast.Name) else "j"
 
     def acc_name(self):
-        """the accumulator: the variable that is divided by len(X) at the end"""
+        """the accumulator: the loop variable that a block score (a call of the objective) is added to"""
         import ast
-        d = [n for n in ast.walk(self.fn) if isinstance(n, ast.AugAssign) and isinstance(n.op, ast.Div)]
-        return d[0].target.id if d else "validation_gemini"
+        for w in [n for n in ast.walk(self.fn) if isinstance(n, ast.While)]:
+            for n in ast.walk(w):
+                tgt = None
+                if isinstance(n, ast.AugAssign) and isinstance(n.op, ast.Add) and isinstance(n.target, ast.Name):
+                    tgt, val = n.target.id, n.value
+                elif (isinstance(n, ast.Assign) and len(n.targets) == 1 and isinstance(n.targets[0], ast.Name) and isinstance(n.value, ast.BinOp)
+                      and isinstance(n.value.op, ast.Add) and any(isinstance(x, ast.Name) and x.id == n.targets[0].id for x in (n.value.left, n.value.right))):
+                    tgt, val = n.targets[0].id, n.value
+                if tgt is not None and any(isinstance(c, ast.Call) for c in ast.walk(val)):
+                    return tgt
+        return "validation_gemini"
+
+    def binop(self, op, l, r, st):
+        # `return acc / len(X), penalty` is the same as `acc /= len(X); return acc, penalty`
+        if op == "Div" and isinstance(l, V.Opaque) and l.tag == "acc":
+            return self.augassign("validation_gemini", "Div", l, r, st)
+        return super().binop(op, l, r, st)
 
     def augassign(self, name, op, cur, v, st):
-        if name == self.acc_name():
+        # the accumulator is recognised by what is added to it (a block score times a weight) / by what is divided (the
+        # accumulated term), not by its name nor by the spelling `+=` / `/=`
+        if op == "Add" and isinstance(v, V.Opaque) and v.tag == "binop:Mult" and any(
+                isinstance(x, V.Opaque) and x.tag == "call:gemini_objective" for x in v.a):
+            name = "validation_gemini"
+            if not (isinstance(v.a[0], V.Opaque) and v.a[0].tag == "call:gemini_objective"):
+                v = V.Opaque("binop:Mult", v.a[1], v.a[0])          # weight * score == score * weight
+        if op == "Div" and isinstance(cur, V.Opaque) and cur.tag == "acc":
             name = "validation_gemini"
         if name == "validation_gemini" and op == "Add":
             # v must be gemini_objective(y_pred, affinity) * len(X_batch)
@@ -216,6 +240,15 @@ class ValScoreVC(V.VC):
                 ok2 = (isinstance(a2, V.Opaque) and a2.tag == "call:gemini_objective.compute_affinity" and len(a2.a) == 1
                        and isinstance(a2.a[0], V.Opaque) and a2.a[0].tag == "colgather" and a2.a[0].a[0] is xb)
                 okaff = ok1 and ok2
+                if not okaff and cond is not None and z3.is_true(z3.simplify(cond == self.y_none)):
+                    # `if y is None: <computed> else: <given>`: the same conditional with the test the other way round
+                    cond, a1, a2 = z3.Not(cond), a2, a1
+                    ok1 = (isinstance(a1, V.Opaque) and a1.tag == "colgather" and isinstance(a1.a[0], V.Opaque) and a1.a[0].tag == "gather"
+                           and isinstance(a1.a[0].a[0], V.Opaque) and a1.a[0].a[0].tag == "y" and part is not None
+                           and V._same(a1.a[0].a[1], part) and V._same(a1.a[1], part))
+                    ok2 = (isinstance(a2, V.Opaque) and a2.tag == "call:gemini_objective.compute_affinity" and len(a2.a) == 1
+                           and isinstance(a2.a[0], V.Opaque) and a2.a[0].tag == "colgather" and a2.a[0].a[0] is xb)
+                    okaff = ok1 and ok2
             self.prove("block: affinity is y[j:j+b][:, j:j+b] when y is given, else compute_affinity of the block", st.assm,
                        z3.And(z3.BoolVal(bool(okaff)), cond == z3.Not(self.y_none)) if cond is not None else False)
             if part is not None:
